@@ -485,13 +485,13 @@ class Ctx:
             self.inconclusive("driver %s failed (rc=%s, report=%s), log %s:\n%s" % (pkg, rc, rep is not None, log_path, tail))
             return rep or {"violations": [], "summary": {}}
         # standard report handling
-        for v in rep.get("violations", []):
+        for v in (rep.get("violations") or []):
             self.violation(v.get("signature", "unspecified"), v.get("what", ""), v.get("replay"))
-        for s in rep.get("samples", [])[:4]:
+        for s in (rep.get("samples") or [])[:4]:
             self.sample(s)
-        for n in rep.get("inconclusive", []):
+        for n in (rep.get("inconclusive") or []):
             self.inconclusive("driver %s: %s" % (pkg, n))
-        c = rep.get("counters", {})
+        c = rep.get("counters") or {}
         for k, v in c.items():
             if isinstance(v, (int, float)) and not isinstance(v, bool):
                 self.cov[k] = self.cov.get(k, 0) + v
